@@ -20,6 +20,9 @@ class T3TagAdversary(object):
         return (nondet_bytearray(8, 8), nondet_bytearray(8, 8))
 
     def read_from_ndef_service(self, *blocks):
+        # the real command builder is proved for up to 15 blocks (C08/tt3.read_from_ndef_service[15,*]); more
+        # do not fit one response frame
+        require(len(blocks) >= 1 and len(blocks) <= 15, 'at most 15 blocks per READ command')
         self.commands = self.commands + 1
         if nondet_bool():
             raise nfc.tag.tt3.Type3TagCommandError(nfc.tag.TIMEOUT_ERROR)
@@ -146,6 +149,7 @@ class T3NdefTag(object):
     def read_from_ndef_service(self, *blocks):
         first = blocks[0]
         n = len(blocks)
+        require(n >= 1 and n <= 15, 'at most 15 blocks per READ command (what one frame carries)')
         if first < 0 or first + n > self.nblocks:
             raise nfc.tag.tt3.Type3TagCommandError(0x01A8)
         return bytearray(self.mem[16 * first:16 * (first + n)])
@@ -154,6 +158,7 @@ class T3NdefTag(object):
         first = blocks[0]
         n = len(blocks)
         require(len(data) == 16 * n, 'write data is 16 octets per block')
+        require(n >= 1 and n <= 12, 'at most 12 blocks per WRITE command (what one frame carries)')
         require(first >= 0 and first + n <= 1 + self.frame_nmaxb(), 'C03: write stays inside blocks 0..Nmaxb')
         self.mem = self.mem[0:16 * first] + bytes(data) + self.mem[16 * (first + n):]
         self.writes = self.writes + 1
